@@ -843,10 +843,18 @@ def known_mechanism(mon, history, step, monitors):
     return True, f'boundary lacks exactly the exposed child faces (measure {pa:.6g}) of the hierarchically refined elements {sorted(owners)} of the trimmed topology'
 
 
-def _retrimmed(topo):
-    """elements whose reference is a mosaic of a mosaic: an element cut a second time at the same refinement level"""
+def _has_retrimmed(ref):
     from nutils import element
-    return {i for i, r in enumerate(topo.references) if isinstance(r, element.MosaicReference) and isinstance(r.baseref, element.MosaicReference)}
+    if isinstance(ref, element.MosaicReference):
+        return isinstance(ref.baseref, element.MosaicReference) or _has_retrimmed(ref.baseref)
+    if isinstance(ref, element.WithChildrenReference):
+        return any(_has_retrimmed(c) for c in ref.child_refs)
+    return False
+
+
+def _retrimmed(topo):
+    """elements whose reference (or, for maxrefine >= 1, one of its children) is a mosaic of a mosaic: cut a second time at the same level"""
+    return {i for i, r in enumerate(topo.references) if _has_retrimmed(r)}
 
 
 def _element_defects(mon, topo, geom, geom0):
@@ -884,14 +892,17 @@ def known_retrim(mon, history, step, monitors):
         return False, 'no element measures'
     tol = 1e-9 * mon.scale(vb['vol'])
     culprits = set()   # base elements that are parents of defective retrimmed elements
-    ndefect = 0
+    ndefect = uncomputable = 0
     parts = [('pos', pos)] + [(k, info[k]) for k in ('neg', 'neg2') if info.get(k) is not None]
     for label, T in parts:
         if not len(T):
             continue
         bad = _element_defects(mon, T, geom, geom0)
         if bad is None:
-            return False, f'element closure of {label} not computable'
+            # nutils cannot even integrate over the edges of this part ("unsupported ischeme for EmptyLike" inside a retrimmed 3-D element):
+            # fall back to the structural condition for this part: its retrimmed elements are the suspects
+            bad = _retrimmed(T)
+            uncomputable += 1
         if not bad <= _retrimmed(T):
             return False, f'{label} has defective elements that are not retrimmed mosaics: {sorted(bad - _retrimmed(T))[:5]}'
         par, _ = parents(base, T, exact=True)
